@@ -171,7 +171,7 @@ def main(argv=None):
     exit_code = 0
     replay_paths = []
     if fresh:
-        rdir = os.path.join(HOME, "replays", prop)
+        rdir = os.path.join(os.environ.get("VT_REPLAY_DIR") or os.path.join(HOME, "replays"), prop)
         os.makedirs(rdir, exist_ok=True)
         seen = set()
         for v in fresh:
@@ -230,11 +230,12 @@ def main(argv=None):
         extra = getattr(mod, "evidence_extra", None)
         if extra:
             ev["coverage"].update(extra(counters, sets))
-        os.makedirs(os.path.join(HOME, "evidence"), exist_ok=True)
-        tmp = os.path.join(HOME, "evidence", prop + ".json.tmp")
+        edir = os.environ.get("VT_EVIDENCE_DIR") or os.path.join(HOME, "evidence")
+        os.makedirs(edir, exist_ok=True)
+        tmp = os.path.join(edir, prop + ".json.tmp")
         with open(tmp, "w") as fh:
             json.dump(ev, fh, indent=1)
-        os.replace(tmp, os.path.join(HOME, "evidence", prop + ".json"))
+        os.replace(tmp, os.path.join(edir, prop + ".json"))
 
     print("%s tier=%s seed=%d shards=%d evaluations=%d distinct_nontrivial=%d violations=%d wall=%.1fs"
           % (prop, args.tier, seed, len(specs), evaluations, len(nontrivial), n_viol, wall))
